@@ -1,9 +1,25 @@
 """texts for MANIFEST.json"""
-HOOK_COMMITS = []
+HOOK_COMMITS = ["fd76d36"]
 NOTES = ("Technique: machine-checked proof in Lean 4 about a hand-written executable model, tied to /repo by a differential "
          "correspondence run on every check (DESIGN.md). fix: commits in /repo are listed in known_findings.json.")
 NOT_APPLICABLE = {}
 CHECKS = {
+    "C02": {
+        "text": ("Lean theorems (unbounded): the transcribed sameFile/compareStat is exactly equality of the property's identity tuple (sameFile_iff_identity); "
+                 "diffing a listing against itself emits nothing (resync_is_silent); for valid listings the emitted add/modify/delete events applied to the old "
+                 "listing give the source listing, for both differs (diff_converges). Correspondence: doubleWalkDiff (through the verif export) vs the Lean diff "
+                 "on generated listing pairs, and the executable reference spec (each changed path once, unchanged never, top-most deletes) applied to what the Go code emitted."),
+        "note": ("Trusted: Lean kernel + standard axioms; model = code only on generated inputs. Listing level: that the receiver's destination walk and the "
+                 "wire deliver those listings, inode preservation and content requests on disk are decided by the end-to-end suites (resync), not by a theorem."),
+    },
+    "C09": {
+        "text": ("Lean theorems (unbounded): the pre-order walk of every tree whose directories list children in bytewise name order is strictly ascending in "
+                 "ComparePath, below any prefix (walk_strictly_ascending, _below), and a directory precedes everything under it (dir_before_contents). "
+                 "Correspondence: NewFS(dir).Walk on trees materialised on ext4 (all entry types, hard-link groups, xattrs, adversarial names) vs the executable "
+                 "model fed an independent lstat/readlink/listxattr snapshot, and the executable spec (once-ness, order, stat equality, hard-link rule) on the Go output."),
+        "note": ("Trusted: Lean kernel + standard axioms; 'stat matches lstat' is an OS fact decided by correspondence only; ReadDir order assumed bytewise "
+                 "(exercised). SubDirFS composition is not yet covered by a suite."),
+    },
     "C12": {
         "text": ("Lean theorems (unbounded): ComparePath is a strict total order (cmp_irrefl/trans/total/asymm) and equals component-wise lexicographic "
                  "comparison (cmp_eq_componentwise); the component-level validator accepts exactly the ascending, parent-closed sequences of plain paths "
